@@ -264,6 +264,14 @@ def gen_workspace(rng, npatches=None, fail_prob=0.4, features=("modify", "create
                 for i in rng.sample(idx, min(len(idx), rng.randint(1, 2))):
                     ls[i] = ls[i][:1] + b"DOES NOT MATCH"
                 text = b"\n".join(ls)
+            if rng.random() < 0.25:
+                # one more failing file patch: a file that is not there, in a directory that is not there either (its
+                # reject is bypassed; the rejects of the others must still be written) - before or after the rest
+                miss = b"--- " + prefix_a + b"nodir/x%d\n+++ " % pi + prefix_b + b"nodir/x%d\n@@ -1 +1 @@\n-q\n+r\n" % pi
+                if text.startswith((b"diff ", b"--- ", b"Index: ")) and rng.random() < 0.5:
+                    text = miss + text
+                else:
+                    text = text + (b"" if text.endswith(b"\n") else b"\n") + miss
         patches[pname] = text
         series_lines.append(pname + opts)
         tree = new_tree
